@@ -568,3 +568,44 @@ Definition run_file_hist (inp : list Z) : list Z :=
   | ty :: tpb :: r => run_fops (length r) false (fresh ty tpb []) r
   | _ => bad_input
   end.
+
+(* ---- component of C15: a history of construct / copy / freeze / thaw / assign / delete / hash on a heap of messages ---- *)
+Require Import Mido.Model.Frozen.
+Fixpoint in_attrs (n : nat) (l : list Z) : attrs * list Z :=
+  match n, l with
+  | S k, a :: v :: r => let '(kv, r') := in_attrs k r in ((a, v) :: kv, r')
+  | _, _ => ([], l)
+  end.
+Definition out_cls (c : cls) : Z := match c with CMsg => 0 | CMeta => 1 | CUnk => 2 end.
+Definition in_cls (z : Z) : cls := if z =? 0 then CMsg else if z =? 1 then CMeta else CUnk.
+Definition out_obj15 (o : obj) : list Z :=
+  out_cls (o_cls o) :: (if o_frozen o then 1 else 0) :: o_kind o :: out_list (flat_map (fun kv => [fst kv; snd kv]) (sort_kv (o_attrs o))).
+Definition out_heap (h : heap) : list Z := zlen h :: flat_map out_obj15 h.
+Definition out_ref (r : res ref) : list Z :=
+  match r with Ok (Some l) => [0; Z.of_nat l] | Ok None => [0; -1] | Raise e => out_exn_tol e end.
+Definition in_ref (z : Z) : ref := if z <? 0 then None else Some (Z.to_nat z).
+Fixpoint run_hops (fuel : nat) (h : heap) (l : list Z) : list Z :=
+  match fuel with
+  | O => []
+  | S f =>
+    match l with
+    | [] => []
+    | 0 :: c :: k :: n :: r =>
+        let '(kv, r') := in_attrs (Z.to_nat n) r in
+        let h' := h ++ [{| o_cls := in_cls c; o_frozen := false; o_kind := k; o_attrs := kv |}] in
+        [0; zlen h] ++ [-8] ++ out_heap h' ++ [-9] ++ run_hops f h' r'
+    | 1 :: x :: n :: r =>
+        let '(kv, r') := in_attrs (Z.to_nat n) r in
+        let '(h', res) := do_copy h (Z.to_nat x) kv in out_ref res ++ [-8] ++ out_heap h' ++ [-9] ++ run_hops f h' r'
+    | 2 :: x :: r => let '(h', res) := do_freeze h (in_ref x) in out_ref res ++ [-8] ++ out_heap h' ++ [-9] ++ run_hops f h' r
+    | 3 :: x :: r => let '(h', res) := do_thaw h (in_ref x) in out_ref res ++ [-8] ++ out_heap h' ++ [-9] ++ run_hops f h' r
+    | 4 :: x :: a :: v :: r =>
+        let '(h', res) := do_set h (Z.to_nat x) a v in
+        (match res with Ok _ => [0; -2] | Raise e => out_exn_tol e end) ++ [-8] ++ out_heap h' ++ [-9] ++ run_hops f h' r
+    | 5 :: x :: a :: r =>
+        let '(h', res) := do_del h (Z.to_nat x) a in
+        (match res with Ok _ => [0; -2] | Raise e => out_exn_tol e end) ++ [-8] ++ out_heap h' ++ [-9] ++ run_hops f h' r
+    | _ => bad_input
+    end
+  end.
+Definition run_heap_hist (inp : list Z) : list Z := run_hops (length inp) [] inp.
